@@ -136,6 +136,231 @@ def gen_random(rng, n, maxlen):
         yield dict(kind=kind, L=rng.choice([10, 10, 3, 2]), ops=ops + tail, stream="random", scope="in")
 
 
+BOTH_LINKS = [("/b/*", "g1"), ("/b/1", "g1"), ("g1", "g2")]
+BOTH_DOMS = ["d1", "*"]
+
+
+def gen_both_histories(maxlen):
+    """DomainManager with a role-name matching function AND a domain matching function at the same time: all histories
+    over {/b/* -> g1, /b/1 -> g1, g1 -> g2} recorded in {d1, *}, per-domain first-sight queries (which fill the
+    per-domain caches and make the cached managers copy pattern roles), RE-registration of either function in the
+    middle (name function key_match -> key_match2: every cached manager is rebuilt; domain function key_match ->
+    full-match regex, under which `*` is an invalid pattern = matches nothing: every cache is dropped), x 4 orders of
+    the first registration (both first / name function last / domain function last / both last, over existing caches)"""
+    alpha = [["add", *l, d] for l in BOTH_LINKS for d in BOTH_DOMS] + [["del", *l, d] for l in BOTH_LINKS for d in BOTH_DOMS]
+    alpha += [("Q", "d1"), ("Q", "d2"), ("RM",), ("RD",)]
+    tail = []
+    for d in ["d1", "d2", "*"]:
+        tail += [["has", "/b/1", "g1", d], ["has", "/b/2", "g2", d], ["has", "/c/1", "g1", d], ["roles", "/b/1", d], ["roles", "/b/2", d], ["users", "g1", d]]
+    M, D = ["matchfn", "key_match"], ["dmatchfn", "key_match"]
+    for n in range(1, maxlen + 1):
+        for seq in itertools.product(alpha, repeat=n):
+            ops = []
+            for o in seq:
+                if o[0] == "Q":
+                    ops += [["has", "/b/1", "g2", o[1]], ["has", "/b/2", "g1", o[1]]]
+                elif o[0] == "RM":
+                    ops.append(["matchfn", "key_match2"])
+                elif o[0] == "RD":
+                    ops.append(["dmatchfn", "regex"])
+                else:
+                    ops.append(o)
+            for v, full in enumerate(([M, D] + ops, [D] + ops + [M], [M] + ops + [D], ops + [D, M])):
+                if v and n == maxlen and not any(o[0] == "Q" for o in seq):
+                    continue  # late registration over no cache: the same as registration first
+                yield dict(kind="domain", L=10, ops=full + tail, stream="both-functions", scope="in")
+
+
+NONREFL = [
+    # (domain function, domains, probe domains): the function does not relate every domain to itself
+    ("regex", ["d(1)", "d.", "dx"], ["d(1)", "dx", "d."]),
+    ("prefix_star", ["d1", "d*"], ["d1", "d2", "d*"]),
+]
+
+
+def gen_nonreflexive_domain(maxlen):
+    """a domain matching function under which a domain does not match itself (regex_match on `d(1)`, a prefix function on
+    a concrete domain): the cached manager of the very domain a link is added to / deleted from must follow (F36)"""
+    for fname, doms, probes in NONREFL:
+        alpha = [["add", "a", "r", d] for d in doms] + [["del", "a", "r", d] for d in doms] + [("Q", d) for d in probes[:2]]
+        tail = [["has", "a", "r", d] for d in probes] + [["roles", "a", d] for d in probes]
+        for n in range(1, maxlen + 1):
+            for seq in itertools.product(alpha, repeat=n):
+                ops = [["has", "a", "r", o[1]] if o[0] == "Q" else o for o in seq]
+                yield dict(kind="domain", L=10, ops=[["dmatchfn", fname]] + ops + tail, stream="domain-nonreflexive", scope="in")
+                if n < maxlen:
+                    yield dict(kind="domain", L=10, ops=ops + [["dmatchfn", fname]] + tail, stream="domain-nonreflexive", scope="in")
+
+
+DOMFNS = ["key_match", "key_match", "regex", "prefix_star", "eq"]
+RDOMS = ["d1", "d2", "*", "d.", "d(1)", "d*"]
+
+
+def gen_both_random(rng, n, maxlen):
+    """seeded histories of a DomainManager under a name function and a domain function, both (re-)registered at random
+    points (possibly changed: the name function to equality and back, the domain function among key_match / regex /
+    prefix / equality), over several user patterns, role chains and domain patterns"""
+    for _ in range(n):
+        fname, users, roles, probes = rng.choice(UNIVERSES)
+        doms = rng.sample(RDOMS, 3)
+        ops = []
+        present = []
+        steps = rng.randint(3, maxlen)
+        regs = sorted(rng.randint(0, steps) for _ in range(rng.randint(2, 4)))
+        kinds = ["M", "D"] + [rng.choice("MD") for _ in regs[2:]]
+        rng.shuffle(kinds)
+        for i in range(steps + 1):
+            for at, k in zip(regs, kinds):
+                if at == i:
+                    if k == "M":
+                        ops.append(["matchfn", fname if rng.random() < 0.8 else "eq"])
+                    else:
+                        ops.append(["dmatchfn", rng.choice(DOMFNS)])
+            if i == steps:
+                break
+            d = rng.choice(doms)
+            x = rng.random()
+            if x < 0.40:
+                u = rng.choice(users + roles[:2])
+                r = rng.choice(roles)
+                present.append((u, r, d))
+                ops.append(["add", u, r, d])
+            elif x < 0.60:
+                l = rng.choice(present) if present and rng.random() < 0.85 else (rng.choice(users), rng.choice(roles), d)
+                ops.append(["del", *l])
+            elif x < 0.62:
+                ops.append(["clear"])
+            elif x < 0.88:
+                ops.append(["has", rng.choice(probes), rng.choice(roles), rng.choice(doms + ["d3"])])
+            else:
+                ops.append([rng.choice(["roles", "roles", "users"]), rng.choice(probes), rng.choice(doms)])
+        tail = []
+        for d in doms + ["d3"]:
+            tail += [["has", p, r, d] for p in probes for r in roles[:2]]
+            tail += [["roles", p, d] for p in probes[:3]]
+        yield dict(kind="domain", L=rng.choice([10, 10, 3, 2]), ops=ops + tail, stream="both-random", scope="in")
+
+
+RS_LINKS = [("bob", "/g/*"), ("al", "/g/*"), ("bob", "/g/x1"), ("/g/x1", "top")]
+RS_Q = [("bob", "/g/x1"), ("al", "top"), ("al", "/g/x1")]
+RS_TAIL = [["has", u, x] for u in ["bob", "al"] for x in ["/g/x1", "/g/*", "top"]] + [["has", "/g/x1", "top"]]
+
+
+def gen_role_side(maxlen):
+    """pattern on the ROLE side of an assignment (g, bob, /g/*; key_match): a concrete name matching the role pattern is
+    materialised by a query before / after the assignment; the assignment is revoked; a direct assignment to the same
+    name and a second holder of the pattern overlap with it (F35). ONE concrete member of the pattern only: with two, the
+    later one inherits the earlier one (open observation, outside C14's user-side scope)."""
+    alpha = [["add", *l] for l in RS_LINKS] + [["del", *l] for l in RS_LINKS] + [["has", *q] for q in RS_Q]
+    for n in range(1, maxlen + 1):
+        for seq in itertools.product(alpha, repeat=n):
+            yield dict(kind="plain", L=10, ops=[["matchfn", "key_match"]] + [list(o) for o in seq] + RS_TAIL, stream="role-side-revocation", scope="in", nospec=True)
+
+
+_RS = {}
+
+
+def _rs_new():
+    if not _RS:
+        common.use_repo()
+        from casbin import util
+        from casbin.rbac.default_role_manager import role_manager as rmmod
+
+        _RS["cls"], _RS["key_match"] = rmmod.RoleManager, util.key_match
+    return _RS["cls"](10)
+
+
+def _rs_fresh(force):
+    rm = _rs_new()
+    rm.add_matching_func(_RS["key_match"])
+    for l in force:
+        rm.add_link(*l)
+    return rm
+
+
+def _rs_run(ops):
+    """first has_link answer that differs from a FRESH manager holding the assignments in force: (index, got, expected)"""
+    rm = _rs_new()
+    force = []
+    n = 0
+    for i, op in enumerate(ops):
+        try:
+            if op[0] == "matchfn":
+                rm.add_matching_func(_RS[op[1]])
+            elif op[0] == "add":
+                rm.add_link(op[1], op[2])
+                if tuple(op[1:]) not in force:
+                    force.append(tuple(op[1:]))
+            elif op[0] == "del":
+                rm.delete_link(op[1], op[2])
+                if tuple(op[1:]) in force:
+                    force.remove(tuple(op[1:]))
+            else:
+                n += 1
+                got, exp = rm.has_link(op[1], op[2]), _rs_fresh(force).has_link(op[1], op[2])
+                if got != exp:
+                    return (i, "T" if got else "F", "T" if exp else "F"), n
+        except Exception as ex:  # noqa
+            return (i, rm_corr.fmt_exc(ex), "ok"), n
+    return None, n
+
+
+def _rs_chunk(hs):
+    out = []
+    n = 0
+    for h in hs:
+        bad, k = _rs_run(h["ops"])
+        n += k
+        if bad:
+            out.append((h, bad))
+    return out, n
+
+
+def role_side_revocation(ctx, res, hs):
+    """judged by the fresh-manager oracle (C04's statement at role-manager level): after any of these histories every
+    has_link answer equals that of a new RoleManager holding the assignments in force"""
+    import multiprocessing
+
+    chunks = [hs[i : i + 1500] for i in range(0, len(hs), 1500)]
+    with multiprocessing.get_context("fork").Pool(12) as pool:
+        outs = pool.map(_rs_chunk, chunks, chunksize=1)
+    for bads, n in outs:
+        res.evaluations += n
+        res.count("stream:role-side-revocation-oracle", n)
+        for h, (i, got, exp) in bads:
+            if res._per_sig.get("C14:plain:role-side-revocation:has", 0) >= 3:
+                res.n_spec += 1
+                continue
+            ops = h["ops"][: i + 1]
+            j = 1
+            while j < len(ops) - 1:  # greedy shrinking
+                cand = ops[:j] + ops[j + 1 :]
+                b, _ = _rs_run(cand)
+                if b and b[0] == len(cand) - 1:
+                    ops = cand
+                else:
+                    j += 1
+            b, _ = _rs_run(ops)
+            if b:
+                got, exp = b[1], b[2]
+            res.violation(
+                {
+                    "signature": "C14:plain:role-side-revocation:has",
+                    "what": f"RoleManager under key_match with the pattern on the role side: after {ops[:-1]} has_link{tuple(ops[-1][1:])} = {got}; a fresh manager holding the assignments in force answers {exp}",
+                    "rs_ops": ops,
+                    "observed": got,
+                    "expected": exp,
+                    "replay_kind": "roleside",
+                }
+            )
+    return res
+
+
+def replay_roleside(obj):
+    b, _ = _rs_run(obj["rs_ops"])
+    return b is not None
+
+
 def gen_tie_only(rng, n):
     """outside the property's scope, compared with the Lean model only: patterns on the role side, conditional managers
     with a matching function, names matching each other in both positions"""
@@ -212,6 +437,12 @@ def _enf(kind, filtered=False):
     from casbin import util
 
     prules = [["alice", grp, "read"] for grp in ROLES] if kind == "g2" else [[x, "any", "res_" + x, "read"] for x in ["a", "r", "s"]]
+    if kind == "both":
+        # g(r.sub, p.sub, r.dom); the two functions are registered by steps of the history (`reg`)
+        e = casbin.Enforcer(casbin.Enforcer.new_model(text=DOM))
+        for r in prules:
+            e.add_policy(*r)
+        return e
     text = RES_ROLE if kind == "g2" else DOM
     if filtered is True:
         import tempfile
@@ -263,6 +494,11 @@ def _enf_done(e):
 def _enf_step(e, kind, k, l):
     """None = management call went through; otherwise the probe's answer or the exception"""
     try:
+        if k == "reg":
+            from casbin import util
+
+            ok = e.add_named_matching_func("g", util.key_match2) if l[0] == "M" else e.add_named_domain_matching_func("g", util.key_match)
+            return None if ok is True else f"!registration returned {ok!r}"
         if k == "add":
             (e.add_named_grouping_policy("g2", *l) if kind == "g2" else e.add_grouping_policy(*l))
             return None
@@ -287,12 +523,22 @@ def enforce_probe(ctx, res, n):
     rng = ctx["rng"]
     cases = []
     for it in range(n):
-        kind = "g2" if it % 2 == 0 else "dom"
+        kind = ("g2", "dom", "both")[it % 3]
         hist = []
         present = set()
-        for _ in range(rng.randint(1, 7)):
+        steps = rng.randint(1, 7)
+        regat = {}
+        if kind == "both":
+            # registration order varied: before the links, between them, after enforce calls filled the caches; sometimes repeated
+            for f in ["M", "D"] + (["D"] if rng.random() < 0.3 else []) + (["M"] if rng.random() < 0.3 else []):
+                regat.setdefault(rng.choice([0, 0, rng.randint(0, steps), steps]), []).append(f)
+        for si in range(steps):
+            for f in regat.get(si, []):
+                hist.append(("reg", (f,)))
             if kind == "g2":
                 l = (rng.choice(PATS + ["/c/1"]), rng.choice(ROLES))
+            elif kind == "both":
+                l = rng.choice([("/u/*", "r"), ("/u/1", "r"), ("/u/:id", "s"), ("r", "s"), ("a", "r")]) + (rng.choice(DOMS),)
             else:
                 l = (rng.choice(["a", "r"]), rng.choice(["r", "s"]), rng.choice(DOMS))
             if l in present:
@@ -304,27 +550,38 @@ def enforce_probe(ctx, res, n):
                 hist.append(("add", l))
             if kind == "g2":
                 hist.append(("enforce", (rng.choice(["/b/1", "/c/1", "/b/2"]), rng.choice(ROLES))))
+            elif kind == "both":
+                hist.append(("enforce", (rng.choice(["/u/1", "/u/2", "a", "/v/1"]), rng.choice(["r", "s"]), rng.choice(DOMS + ["d3"]))))
             else:
                 hist.append(("enforce", (rng.choice(["a", "r"]), rng.choice(["r", "s"]), rng.choice(DOMS))))
+        for f in regat.get(steps, []):
+            hist.append(("reg", (f,)))
         if kind == "g2":
             hist += [("enforce", (o, g)) for o in ["/b/1", "/b/2", "/c/1", "/b/:id"] for g in ROLES]
+        elif kind == "both":
+            hist += [("enforce", (u, x, d)) for u in ["/u/1", "/u/2", "a", "/v/1"] for x in ["r", "s"] for d in DOMS + ["d3"]]
         else:
             hist += [("enforce", (u, x, d)) for u in ["a", "r"] for x in ["r", "s"] for d in DOMS + ["d3"]]
         cases.append((kind, hist))
     lines = []
     for kind, hist in cases:
-        uni = sorted({x for _, l in hist for x in l} | {""})
+        uni = sorted({x for k, l in hist if k != "reg" for x in l} | {""})
         lines += ["#reset", "new\t" + ("plain" if kind == "g2" else "domain") + "\t10"]
-        lines.append(("matchfn\t" + rm_corr.pairs_field("key_match2", uni)) if kind == "g2" else ("dmatchfn\t" + rm_corr.pairs_field("key_match", uni)))
+        if kind != "both":
+            lines.append(("matchfn\t" + rm_corr.pairs_field("key_match2", uni)) if kind == "g2" else ("dmatchfn\t" + rm_corr.pairs_field("key_match", uni)))
         for k, l in hist:
-            lines.append("\t".join([{"add": "add", "remove": "del", "enforce": "has"}[k]] + [common.enc_str(x) for x in l]))
+            if k == "reg":
+                lines.append(("matchfn\t" + rm_corr.pairs_field("key_match2", uni)) if l[0] == "M" else ("dmatchfn\t" + rm_corr.pairs_field("key_match", uni)))
+            else:
+                lines.append("\t".join([{"add": "add", "remove": "del", "enforce": "has"}[k]] + [common.enc_str(x) for x in l]))
     answers = rm_corr.run_driver("rm", lines)
     pos = 0
     for ci, (kind, hist) in enumerate(cases):
-        filtered = [False, False, True, True, "swapped", "swapped"][ci % 6]
+        filtered = False if kind == "both" else [False, True, "swapped"][(ci // 3) % 3]
         e = _enf(kind, filtered)
-        ans = answers[pos + 3 : pos + 3 + len(hist)]
-        pos += 3 + len(hist)
+        hdr = 2 if kind == "both" else 3
+        ans = answers[pos + hdr : pos + hdr + len(hist)]
+        pos += hdr + len(hist)
         for i, ((k, l), a) in enumerate(zip(hist, ans)):
             res.evaluations += 1
             res.count("stream:enforce-" + kind)
@@ -340,7 +597,7 @@ def enforce_probe(ctx, res, n):
                 res.violation(
                     {
                         "signature": f"C14:enforce:{kind}",
-                        "what": f"Enforcer ({'g2(r.obj,p.obj) with key_match2' if kind == 'g2' else 'g(r.sub,p.sub,r.dom) with key_match on domains'}{', role manager replaced before the registration' if filtered == 'swapped' else ', permission rules loaded by load_filtered_policy after the registration' if filtered else ''}): probe {l} = {got} after {hist[:i]}; the effective assignments give {spec}",
+                        "what": f"Enforcer ({'g2(r.obj,p.obj) with key_match2' if kind == 'g2' else 'g(r.sub,p.sub,r.dom) with key_match2 on names and key_match on domains, registered where the history says' if kind == 'both' else 'g(r.sub,p.sub,r.dom) with key_match on domains'}{', role manager replaced before the registration' if filtered == 'swapped' else ', permission rules loaded by load_filtered_policy after the registration' if filtered else ''}): probe {l} = {got} after {hist[:i]}; the effective assignments give {spec}",
                         "enf_kind": kind,
                         "enf_filtered": filtered,
                         "enf_history": [[k2, list(l2)] for k2, l2 in hist[: i + 1]],
@@ -374,23 +631,34 @@ def run(ctx):
         hs = list(gen_pattern_histories(4, False)) + list(gen_pattern_histories(3, True))
         hs += list(gen_domain_pattern_histories(4)) + list(gen_domain_pattern_histories(3, True))
         hs += list(gen_f22())
+        hs += list(gen_both_histories(3)) + list(gen_nonreflexive_domain(4))
+        rs = list(gen_role_side(4))
+        hs += rs
         if stage == "quick":
-            hs += list(gen_random(rng, 4000, 10)) + list(gen_tie_only(rng, 1500))
-            nenf = 300
+            hs += list(gen_random(rng, 4000, 10)) + list(gen_tie_only(rng, 1500)) + list(gen_both_random(rng, 3000, 14))
+            nenf = 360
         else:
-            hs += list(gen_random(rng, 120000, 20)) + list(gen_tie_only(rng, 30000))
-            nenf = 4000
+            hs += list(gen_random(rng, 120000, 20)) + list(gen_tie_only(rng, 30000)) + list(gen_both_random(rng, 100000, 24))
+            nenf = 4200
         res.rule = (
             "all add/delete/first-sight-query histories of length <= 4 over {/b/*, /b/:id, /b/1} x {g1, g2} + g1->g2 under key_match2 "
             "(matching function registered first; registered last for length <= 3) with has_link probes of a matching, a non-matching and a "
             "pattern name; all histories of length <= 4 of a chain recorded in domains {d1, d2, *} under a key_match domain function with "
-            "per-domain queries interleaved (domain function registered first; registered last, over existing caches, for length <= 3); seeded random histories over key_match / key_match2 / regex / raising universes incl. clear and "
+            "per-domain queries interleaved (domain function registered first; registered last, over existing caches, for length <= 3); "
+            "DomainManager under BOTH a name function and a domain function: all histories of length <= 3 over {/b/* -> g1, /b/1 -> g1, g1 -> g2} x {d1, *} "
+            "with first-sight queries per domain and re-registration of either function (key_match -> key_match2; key_match -> full-match regex) x 4 orders of "
+            "the first registration; all histories of length <= 4 under a domain function that does not relate a domain to itself (regex on d(1), prefix function; F36); "
+            "all histories of length <= 4 with the pattern on the ROLE side (two holders of /g/*, a direct assignment to a matching name, a role of that name; one "
+            "concrete member) judged by the fresh-manager oracle and tied to the model (F35); "
+            "seeded histories with both functions (re-)registered and changed at random points over 6 domain names; seeded random histories over key_match / key_match2 / regex / raising universes incl. clear and "
             "late registration, plain and domain managers; a tie-only stream (role-side patterns, conditional managers with patterns); the "
-            "outside-the-hypotheses stream F22; Enforcer probes (g2 with add_named_matching_func, g with add_named_domain_matching_func); "
+            "outside-the-hypotheses stream F22; Enforcer probes (g2 with add_named_matching_func, g with add_named_domain_matching_func, g with BOTH "
+            "registered through the enforcer before / between / after grouping rules and enforce calls); "
             "non-trivial = a has_link answer True between different names; distinct by history prefix"
         )
         res.exhaustive = True
         rm_corr.run_all(ctx, res, "C14", hs, chunk=500, workers=14)
+        role_side_revocation(ctx, res, rs)
         enforce_probe(ctx, res, nenf)
         if [v for v in res.spec_violations if not v["signature"].startswith("C14:F22")]:
             break
@@ -400,4 +668,6 @@ def run(ctx):
 def replay(obj):
     if obj.get("replay_kind") == "enforce":
         return replay_enforce(obj)
+    if obj.get("replay_kind") == "roleside":
+        return replay_roleside(obj)
     return rm_corr.replay(obj)
